@@ -29,7 +29,12 @@ def stmt(act):
     if a == "DestructureTooMany": return f"({n}, {m}, zz9) := (7, 8)"
     if a == "DestructureVar": return f"({n}, {m}) := {act['k']}"
     if a == "Eval": return f"{n}"
+    if a == "FailingCall":      # needs FN_DEFS in the main program; the variant is chosen by the caller through act["i"]
+        return ["zzq := zzbad(1)", "zzq := zzpick(5)", "zzbad(2)", f"{n} = zzbad(3)", "zzq := zzbad(\"s\")", "zzw := zzpick(7) + 1"][act.get("i", 0) % 6]
     raise ValueError(act)
+
+# user functions whose calls fail at run time (body reads an undefined name; no arm matches) - definitions change no variable
+FN_DEFS = "zzbad(x<f64>) = z<f64> :=\n  z := x + zzmissing.\n\nzzpick(x<f64>) => <f64>\n  | 0 => 10\n  | 1 => 11."
 
 def num(n): return ('num', 'f64', F(n))
 
